@@ -27,7 +27,6 @@ def Safe (pool : Pool) (r : Res) : Prop := ∀ i, r = .sel i → AvailAt pool i
 
 def Res.isPanic : Res → Bool
   | .panicIdx => true
-  | .panicDiv => true
   | .panicNil => true
   | _ => false
 
@@ -45,11 +44,12 @@ def wOffset (ws : List Nat) (i : Nat) : Nat := (ws.take i).sum
 /-- conditions under which a policy term is claimed to return an upstream whenever one is
     available. Round robin: its uint32 counter does not wrap during the call. Hash policies:
     some available upstream has a non-zero hash (the code treats hash 0 as "nothing found").
-    Weighted round robin is treated separately (`weightedRR_…`). -/
+    Weighted round robin (two or more weights): some upstream is available and has a positive
+    weight of its own — weight 0, or no weight at all, disables an upstream. -/
 def liveOK (pool : Pool) : Policy → Bool
   | .first => true
   | .rr c => decide (c + pool.length < u32)
-  | .wrr _ _ => false
+  | .wrr ws _ => decide (ws.length < 2) || (List.range (wrrEff ws pool).length).any (wrrUsable (wrrEff ws pool) pool)
   | .leastConn => true
   | .random => true
   | .randomChoose k => decide (1 ≤ k)
@@ -65,16 +65,5 @@ def nilSafe : Bool → Policy → Bool
   | w, .keyed false fb => nilSafe w fb
   | w, .cookie _ fb => w && nilSafe w fb
   | _, _ => true
-
-/-- weighted round robin is configured so that it cannot panic on this pool -/
-def wrrOK (pool : Pool) (ws : List Nat) : Bool :=
-  decide (ws.length < 2) || (decide (0 < ws.sum) && decide (pool.length ≤ ws.length))
-
-def panicOK (pool : Pool) : Policy → Bool
-  | .wrr ws _ => wrrOK pool ws
-  | .keyed true _ => true
-  | .keyed false fb => panicOK pool fb
-  | .cookie _ fb => panicOK pool fb
-  | _ => true
 
 end CaddyModel.C08
